@@ -1070,7 +1070,9 @@ class StrategyBase(Node):
             # close each child the way close() does: a sub-strategy is
             # liquidated first and only then is its remaining value (net of the
             # costs of liquidating) withdrawn
-            [self.close(c.name, update=False) for c in self._childrenv if c.value != 0]
+            # (a sub-strategy is closed whatever its value: it may hold
+            # positions whose value is exactly offset by its cash)
+            [self.close(c.name, update=False) for c in self._childrenv if c.value != 0 or not c._issec]
 
         self.root.stale = True
 
